@@ -239,6 +239,14 @@ func c07Run(rep *verifrep.R, dir string, plan *c07Plan, sample bool) {
 		}
 		m := robust.NewMessageFromBytes(l.Data, robust.IdFromRaftIndex(l.Index))
 		want := raftLogOf(e)
+		// the envelope raft compares with its peers' copies (index, term, type) is untouched, marked or not
+		if l.Index != want.Index || l.Term != want.Term || l.Type != want.Type {
+			key := "innocent-entry-altered"
+			if i == plan.CrashAt {
+				key = "marked-entry-altered"
+			}
+			viol(key, fmt.Sprintf("entry %d is stored as (index %d, term %d, type %v), it was appended as (index %d, term %d, type %v): raft on a restarted node sees a conflict with the leader's copy and replaces it", e.Id, l.Index, l.Term, l.Type, want.Index, want.Term, want.Type))
+		}
 		if i == plan.CrashAt {
 			if m.Type != robust.MessageOfDeath {
 				viol("crashing-entry-not-marked", fmt.Sprintf("entry %d (%q) crashed the state machine but is stored with type %v", e.Id, e.Data, m.Type))
